@@ -18,6 +18,7 @@ class Renderer:
         self.use9 = use9 if use9 is not None else any(n["t"] in ("cs", "pipe") for n in P)
         self.in_cs = 0
         self.in_quote = 0
+        self.eval_as_source = False  # write an eval node as a sourced text (`. /dev/stdin <<'S<i>'`): same model, the other way of running text in the current shell
         self.decorate = None        # random.Random: vary the separators between list items (C15: blank lines, comments, continuations)
 
     def nd(self, i):
@@ -156,6 +157,9 @@ class Renderer:
             return s + "\nesac"
         if t == "fn":
             return "f%d() {\n%s\n}\nf%d" % (i, self.r(n["a"]), i)
+        if t == "eval" and self.eval_as_source and self.in_quote == 0:
+            # braces keep the here-document's lines together whatever follows the command on its line
+            return "{\n. /dev/stdin <<'S%d'\n%s\nS%d\n}" % (i, self.r(n["a"]), i)
         if t == "eval":
             self.in_quote += 1
             body = self.r(n["a"])
